@@ -40,6 +40,19 @@ CHECKS = {
         note='Bounded: trees <= 4 nodes exhaustively, random trees <= 12 nodes in traces; 10-selector pool chosen to make '
              'every optional argument observable.',
         technique='TLA+ view definitions over one match relation; TLC-enumerated calls replayed into both API layers; TLC trace validation'),
+    'C04': dict(
+        category='model_checking',
+        text='Session.tla models one matcher with its memo tables; TLC checks T-MemoTransparent over every examination order and '
+             'refutes the defective "remember a failed search as the empty value" design (negative model). MC_C04_hist generates '
+             'call histories (all pairs by BFS, longer ones by -simulate) over 7 call kinds x 4 documents (html.parser, lxml-xml, '
+             'html5lib; meta language, iframes, radio groups, forms) x 20 selectors; the real code executes them and History.tla '
+             '- a law-level trace spec in which the match relation is an unlogged variable inferred by TLC - accepts iff one '
+             'relation (seeded by a pristine re-parse asked element by element) explains every observation and the document '
+             'serialisation, node identities and attributes never changed.',
+        design_ref='§6 C04',
+        note='Histories: exhaustive pairs over reduced pools, sampled up to length 6-8; fixed document/selector pools chosen for '
+             'the memoised facts; observations compared through abstract node positions.',
+        technique='TLA+ memo-machine model checked by TLC + TLC-generated call histories executed on the code + law-level TLC trace validation with inferred relation'),
 }
 
 PENDING = {}
